@@ -36,9 +36,14 @@ MonInit ==
    dead |-> {},             \* connections the gateway ended or on which a write failed
    openedLate |-> {},       \* connections accepted after close() was called
    shut |-> {},             \* connections whose writer the client closed
-   last |-> <<>>]           \* (model only) the events of the last step
+   last |-> <<>>,           \* (model only) the events of the last step
+   focus |-> ""]            \* "" | "C13" | "C14": whose clauses are recorded
 
-Fail(m, c) == IF m.viol = "" THEN [m EXCEPT !.viol = c] ELSE m
+\* the clauses of C14; all others belong to C13.  A monitor with a focus records only violations of that property, so
+\* that a breach of the one never hides a breach of the other in the same log (focus "" = both, as in the model)
+C14Clauses == {"C14.delivery-after-close-returned", "C14.late-connection-left-open", "C14.left-CLOSED", "C14.link-not-shut-when-close-returned", "C14.notification-does-not-match-state", "C14.notified-after-close", "C14.open-after-close", "C14.same-state-notified-twice", "C14.state-changed-without-notification", "C14.tasks-still-pending"}
+PropOf(c) == IF c \in C14Clauses THEN "C14" ELSE "C13"
+Fail(m, c) == IF m.viol = "" /\ (m.focus = "" \/ m.focus = PropOf(c)) THEN [m EXCEPT !.viol = c] ELSE m
 
 MonStep(m, ev) ==
   LET m1 ==   \* clauses that hold for every event
